@@ -1,7 +1,7 @@
 /* UNIT
 {
  "id": "PP.undef",
- "file": "pp.c", "function": "undef",
+ "file": "pp.c", "function": "undef", "also_functions": ["expandfunc"],
  "properties": {"C12": "contract", "C19": "safety"},
  "mode": "harness",
  "replace_calls": {"rawnext": "stub_rawnext", "expand": "stub_expand", "stringize": "rec_stringize"},
